@@ -4,6 +4,7 @@ import (
 	"fmt"
 	"net/http"
 	"net/url"
+	"reflect"
 	"sort"
 	"strings"
 
@@ -11,7 +12,7 @@ import (
 )
 
 // C16: Resource registers exactly the REST table.
-// case: (c16 mask uses 'base strict kind 'res (('M 'path) ...))   kind: ptr | val | ptrint
+// case: (c16 mask uses 'base strict kind 'res (('M 'path) ...))   kind: ptr | val | ptrint | ptrptr | badsig
 // obs : ((routes (name (M ...) path nh) ...) (probes <who> ...)) | (regpanic)
 //   who: (hit a (mw ...)) | (status code 'allow)
 
@@ -68,7 +69,7 @@ func c16Gen(r *Rng, tier string, i int) Sx {
 	strict := r.Chance(1, 6)
 	kind := "ptr"
 	if r.Chance(1, 15) {
-		kind = r.Pick([]string{"val", "ptrint"})
+		kind = r.Pick([]string{"val", "ptrint", "ptrptr"})
 	}
 	res := fmt.Sprintf("ctl%03d", mask)
 	if uses {
@@ -129,13 +130,18 @@ func c16Exec(c Sx) (out Sx) {
 		ctl = c16Vals[mask]
 	case "ptrint":
 		ctl = new(int)
+	case "ptrptr": // a pointer to a pointer to a struct is not a pointer to a struct
+		inner := c16Ctls[mask]
+		pp := reflect.New(reflect.TypeOf(inner))
+		pp.Elem().Set(reflect.ValueOf(inner))
+		ctl = pp.Interface()
 	}
 	if ctl == nil {
 		panic("c16: no such controller")
 	}
 	want := strings.ToLower(strings.TrimPrefix(fmt.Sprintf("%T", ctl), "*main."))
 	want = strings.TrimPrefix(want, "main.")
-	if kind != "ptrint" && want != c.List[6].Str() {
+	if kind != "ptrint" && kind != "ptrptr" && want != c.List[6].Str() {
 		panic("c16: resource name in the case does not match the controller type")
 	}
 	panicked := func() (p bool) {
